@@ -105,6 +105,14 @@ theorem quadr_bound (x : ℝ) (hx : |x| ≤ 1 / 16) : |quadr x| < 17000000000000
   rw [abs_lt]
   constructor <;> nlinarith [sq_nonneg x, sq_nonneg (x + 1), sq_nonneg (x - 1)]
 
+theorem hin_ex (p : ℝ → ℝ) (s : Scheme) :
+    ∀ v ∈ (exW p s).vars, has (exP none) v = true → v ∈ names (exW p s).fn.params := by
+  intro v hv _; simp [exW] at hv; subst hv; simp [exW, exB, names]
+
+/-- a constraint `[lo, hi]` on the caller's side, and the parameter passed with it -/
+def cn (lo hi : ℝ) : Option (Interval ℝ) := some ⟨some lo, some hi, true, true⟩
+def qc (lo hi : ℝ) : Param ℝ := ⟨0, 0, 0, cn lo hi⟩
+
 /-! ### two variables: `f(x, y) = x y + x` at `(0, 0)` -/
 
 noncomputable def exf2 : List ℝ → ℝ := fun l => l.headD 0 * l.getD 1 0 + l.headD 0
